@@ -135,6 +135,14 @@ def build(case, chooser=None, horizon=None, light=True, tie=False):
     cfg = world.materialise(case)
     hm = case.get("hashmap")
     seams.set_hash_order(hm)
+    # log level of the library's loggers is part of the environment: set for
+    # every run (NOTSET unless the case asks for one), nothing is printed
+    import logging
+    lg = logging.getLogger("topsim")
+    if not lg.handlers:
+        lg.addHandler(logging.NullHandler())
+    lg.propagate = False
+    lg.setLevel(getattr(logging, case.get("loglevel") or "NOTSET"))
     planning, sched = seams.make_algorithms(case, probe)
     with contextlib.redirect_stdout(_DEVNULL):
         sim = Simulation(env, cfg, Telescope, planning_model=planning,
